@@ -378,6 +378,16 @@ func (c *gctx) expr(depth int, consuming bool) *Expr {
 // inside each kind of enclosing expression, with an observer afterwards.
 func (c *gctx) stateProbe(depth int, consuming bool) *Expr {
 	pred := func() *Expr {
+		if c.cfg.Lookahead && c.chance(1, 5) {
+			// the failure point is a lookahead that says no (or yes): an element of
+			// the sequence that has put the store back by itself - to where *it*
+			// started, not to where the sequence did
+			k := And
+			if c.chance(1, 2) {
+				k = Not
+			}
+			return &Expr{Kind: k, Subs: []*Expr{c.terminal()}}
+		}
 		if !c.cfg.Preds {
 			return c.terminal()
 		}
